@@ -351,6 +351,11 @@ def tw_grid(g):
         return ("look", "trap", g[1])
     if k == "special":
         return ("look", "special", g[1])
+    if k in ("vac", "fil"):
+        # a filled grid is an opaque position for the tracer: its position token (harness/tweezer.py `filled_token`)
+        from . import tweezer as _T
+        t = _T.ev_grid(("vac", ("from", [0], [0]), g[2]) if k == "vac" else ("fil", ("from", [0], [0]), g[2], g[3]), {}, {})
+        return ("prim", "shift", [tw_grid(g[1]), ("lit", t[2]), ("lit", Fraction(0))])
     raise ValueError(g)
 
 
